@@ -274,6 +274,9 @@ func Run(r *vh.Run) {
 		if i%3 == 0 {
 			runConcurrent(r, trng, fmt.Sprintf("tree%d/concurrent", i), t, t.Schedule(trng))
 		}
+		if i%3 == 1 {
+			runListeners(r, trng, fmt.Sprintf("tree%d/listeners", i), t)
+		}
 	}
 	r.Assume("Merkle proof values are checked by the oracle (core's accumulator) only; the model carries ids")
 	r.Assume("concurrent polls are validated per answer (contiguity, bound) and by the final ledger; which interleavings occur is up to the Go scheduler")
